@@ -76,7 +76,8 @@ Definition literal_tok (t : ctok) : bool :=
 Inductive pos :=
 | PWhereEq | PWhereIn | PWhereBetween | PWhereLike | PSelectFunc | PWhereFunc | PSelectCase | PSelectVal | PSelectAlias
 | PInsert | PSet | POnDup | POnConflict | PDefault | PHaving | PJoinOn | PSubWhere | PFromSub | PTupleEq | PArrayElem
-| PArith | PCaseWhen | PCaseElse | PWithOne | PWithTwo | PArithSub | PDeleteWhere | PReplaceRow | PInsertSelect | PUpdateWhere.
+| PArith | PCaseWhen | PCaseElse | PWithOne | PWithTwo | PArithSub | PDeleteWhere | PReplaceRow | PInsertSelect | PUpdateWhere
+| PMethod.   (* Field("a").<any public method or operator spelling>(v): only the value is modelled, the rest is frame *)
 
 Definition fa : term := TField "a" None None.
 Definition tbl (n : string) : option tref := Some {| tname := n; tschema := []; talias := None |}.
@@ -90,7 +91,7 @@ Definition plug (p : pos) (v : term) : term :=
   | PSelectFunc => TFunc "F" (TCons v (TCons (TValI 2 None) TNil)) None None     (* Function("F", v, 2) *)
   | PWhereFunc => TBasic CEq (TFunc "G" (TCons fa (TCons v TNil)) None None) (TValI 1 None) None
   | PSelectCase => TCase (WCons (TBasic CEq fa (TValI 1 None) None) v WNil) (OSome v) None   (* Case().when(a==1, v).else_(v) *)
-  | PSelectVal | PSelectAlias | PInsert | PReplaceRow | PSet | POnDup | POnConflict | PDefault => v
+  | PSelectVal | PSelectAlias | PInsert | PReplaceRow | PSet | POnDup | POnConflict | PDefault | PMethod => v
   | PJoinOn => TBasic CEq (TField "a" (tbl "t") None) v None                     (* t.a == v *)
   | PSubWhere | PFromSub | PInsertSelect => TBasic CEq (TField "y" (tbl "u") None) v None        (* u.y == v inside a sub-query *)
   | PTupleEq => TBasic CEq (TTuple (TCons fa (TCons (TField "b" None None) TNil)) None)
@@ -123,7 +124,7 @@ Definition with_flags (c : ctx) (wa' wn' subq' : bool) : ctx :=
 Definition pos_ctx (p : pos) (k : qclass) : ctx :=
   let c := class_ctx k in
   match p with
-  | PWhereEq | PWhereIn | PWhereBetween | PWhereLike | PWhereFunc | PTupleEq | PSubWhere | PFromSub | PWithOne | PWithTwo | PInsert | PReplaceRow | PDeleteWhere | PInsertSelect | PUpdateWhere =>
+  | PWhereEq | PWhereIn | PWhereBetween | PWhereLike | PWhereFunc | PTupleEq | PSubWhere | PFromSub | PWithOne | PWithTwo | PInsert | PReplaceRow | PDeleteWhere | PInsertSelect | PUpdateWhere | PMethod =>
       with_flags c false false true
   | PSelectFunc | PSelectCase | PSelectVal | PSelectAlias | PArrayElem | PArith | PArithSub | PCaseWhen | PCaseElse =>
       with_flags c true false true
